@@ -3,7 +3,7 @@
 applies /verif/seeded/<seed-name>/patch.diff to the scratch copy /tmp/mutwork/repo, builds the scratch harness, runs."""
 import os, subprocess, sys, time
 sys.path.insert(0, os.path.dirname(__file__))
-W = "/tmp/mutwork"
+W = os.environ.get("SEEDWORK", "/tmp/seedwork")
 def sh(cmd, **kw):
     return subprocess.run(cmd, shell=True, capture_output=True, text=True, **kw)
 name, ids = sys.argv[1], sys.argv[2]
